@@ -41,6 +41,7 @@ PROPS["C17"] = dict(
     rule="ASTs generated from Expr.g4 rendered with random spacing (exactness) and random/mutated/pathological inputs (totality)",
     steps=[
         dict(test="^Test(Regress_C17|C17_Exact|C17_Total)$", quick=dict(checks=2500, timeout=900), thorough=dict(checks=30000, shards=12, timeout=3000)),
+        dict(test="^TestC17_Concurrent$", quick=dict(checks=40, timeout=900), thorough=dict(checks=1500, shards=4, timeout=3000)),
         dict(test="^TestC17_Large$", quick=dict(timeout=900), thorough=dict(timeout=3000)),
     ],
     fuzz=[dict(target="FuzzC17", seconds=150)],
